@@ -132,6 +132,9 @@ def evaluate(case, tapes=None):
         if rec['ok']:
             # it kept receiving what it waited for, each await point within its own deadline: no single wait may exceed the bound
             bound = bound * (n + 2)
+        elif st['kind'] == 'trickle':
+            # trickled packets that still met their per-read deadline are progress: one bound per await point passed
+            bound = bound * (max(0, dev.emitted - k) + 1)
         if elapsed > bound:
             probs.append(O.P('bound-exceeded', 'op#%d %s under stall %s after packet %d took %.3f virtual s after the stall began; bound %.3f (T=%r R=%r timeout_s=%r)' % (i, rec['op'], st['kind'], k, elapsed, bound, vT, vR, vto)))
         if rec['ok']:
